@@ -39,6 +39,29 @@ theorem irange_cons {lo hi : Int} (h : lo < hi) : irange lo hi = lo :: irange (l
 
 theorem len_eq (s : List α) : len s = (s.length : Int) := rfl
 
+theorem idx_append_len (pre : Bytes) (c : UInt8) (rest : Bytes) : idx (pre ++ c :: rest) (pre.length : Int) = .ok (c.toNat : Int) := by
+  have h : (0 : Int) ≤ (pre.length : Int) ∧ (pre.length : Int) < ((pre ++ c :: rest).length : Int) := by
+    simp only [List.length_append, List.length_cons]; omega
+  simp only [idx, h, and_self, if_true, pure, Except.pure]
+  simp
+
+/-- the loop `for i := k; i < len(s); i++ { acc = g(acc, s[i]) }` is a left fold over the rest of s and never panics -/
+theorem forIn_irange_idx_fold {β : Type} (g : β → Int → β) (suf : Bytes) : ∀ (pre : Bytes) (init : β),
+    forIn (m := M) (irange (pre.length : Int) (len (pre ++ suf))) init
+      (fun i s => do let c ← idx (pre ++ suf) i; pure (ForInStep.yield (g s c)))
+    = .ok (suf.foldl (fun s c => g s (c.toNat : Int)) init) := by
+  induction suf with
+  | nil => intro pre init; simp [len_eq, irange_nil, pure, Except.pure]
+  | cons c rest ih =>
+    intro pre init
+    have hlt : (pre.length : Int) < len (pre ++ c :: rest) := by
+      simp only [len_eq, List.length_append, List.length_cons]; omega
+    rw [irange_cons hlt, List.forIn_cons, idx_append_len]
+    have := ih (pre ++ [c]) (g init (c.toNat : Int))
+    simp only [List.append_assoc, List.singleton_append, List.length_append, List.length_singleton, Int.natCast_add, Int.natCast_one] at this
+    simp only [bind, Except.bind, pure, Except.pure, List.foldl_cons]
+    exact this
+
 end NodisVerif.GoLib
 
 
